@@ -7,10 +7,12 @@ import (
 	"strings"
 
 	"github.com/btcsuite/btcd/btcec/v2"
+	"github.com/btcsuite/btcd/btcec/v2/schnorr"
 	"github.com/btcsuite/btcd/btcutil"
 	"github.com/btcsuite/btcd/btcutil/base58"
 	"github.com/btcsuite/btcd/btcutil/bech32"
 	"github.com/btcsuite/btcd/chaincfg"
+	"github.com/btcsuite/btcd/txscript"
 	"github.com/ethereum/go-ethereum/core/types/goattypes"
 	bitcointypes "github.com/goatnetwork/goat/x/bitcoin/types"
 	relayertypes "github.com/goatnetwork/goat/x/relayer/types"
@@ -127,6 +129,20 @@ func c17RoundTrip(c *vc.Ctx, batch int) {
 		key2 := c17Key(c.Seed, batch*100000+k+50000, schn)
 		evm := make([]byte, 20)
 		r.Read(evm)
+		if schn && k%5 == 0 {
+			// directed: an EVM address whose tweaked taproot output key starts with a zero byte (about one in 256; found by
+			// search), the value a fixed-width encoding and a big-integer rendering disagree on
+			if pub, err := schnorr.ParsePubKey(key.GetSchnorr()); err == nil {
+				for t := 0; t < 4000; t++ {
+					cand := world.Derive(c.Seed, fmt.Sprintf("c17zero/%d/%d", batch, k), t)[:20]
+					if schnorr.SerializePubKey(txscript.ComputeTaprootOutputKey(pub, cand))[0] == 0 {
+						evm = cand
+						c.Count("taproot_output_keys_with_a_leading_zero_byte", 1)
+						break
+					}
+				}
+			}
+		}
 		evm2 := append([]byte(nil), evm...)
 		evm2[r.Intn(20)] ^= 1 << uint(r.Intn(8))
 		magic := make([]byte, 4)
